@@ -2,6 +2,7 @@
 package c11
 
 import (
+	"os"
 	"fmt"
 	"net/netip"
 	"sort"
@@ -72,7 +73,7 @@ type caseSpec struct {
 
 var kinds = []string{"t.request", "t.request", "t.request", "t.cancel", "t.cancelpiece", "t.have", "t.donthave", "t.interested", "t.pexadd", "t.pexdel",
 	"r.choke", "r.unchoke", "r.unchoke", "r.have", "r.bitfield", "r.haveall", "r.havenone", "r.donthave", "r.allowedfast", "r.reject", "r.piece", "r.piece", "r.piece",
-	"sleep", "sleep", "sleep", "r.pause", "r.unpause"}
+	"sleep", "sleep", "sleep", "r.pause", "r.unpause", "t.storm"}
 
 func genCase(rt *rapid.T) caseSpec {
 	var c caseSpec
@@ -132,6 +133,7 @@ type model struct {
 	commanded   map[uint32]int // chunks commanded by the torrent and not yet resolved (multiset)
 	reqq        int64
 	pexTold     map[netip.AddrPort]bool
+	trace       []string
 	labels      map[string]bool
 	nreq        int
 	exitAccounted bool
@@ -238,6 +240,7 @@ func (m *model) onMsg(msg ref.Msg, ext map[string]uint8) string {
 				delete(m.pexTold, p.Addr)
 			}
 			m.labels["pex-sent"] = true
+			m.trace = append(m.trace, fmt.Sprintf("@%ds PEX +%d -%d", time.Now().Unix()%100000, len(msg.Added), len(msg.Dropped)))
 		case ref.XHandshake:
 			return "second extended handshake"
 		case ref.XOpaque:
@@ -422,7 +425,11 @@ func run(c caseSpec) (fail string, m *model, hist []string) {
 		// torrent, so "in flight" is what it commanded and has not been told
 		// is dropped or delivered; at quiescence that must be exactly what the
 		// peer still holds in its queue or has sent out
-		if a.Alive() {
+		if a.Alive() && len(a.P.Event) > 0 {
+			// commands are still waiting in the peer's mailbox (it is busy timing
+			// out on a congested connection): they are events in transit
+			m.labels["commands-in-transit"] = true
+		} else if a.Alive() {
 			q, r := peer.VerifRequests(a.P)
 			held := map[uint32]int{}
 			for _, c := range append(q, r...) {
@@ -448,6 +455,22 @@ func run(c caseSpec) (fail string, m *model, hist []string) {
 		} else if !m.exitAccounted {
 			// after the peer has gone every block must have been dropped
 			m.exitAccounted = true
+			// commands the peer never got to see are still in its mailbox: the
+			// torrent releases those blocks itself when it removes the peer
+		drain:
+			for {
+				select {
+				case e := <-a.P.Event:
+					if rq, ok := e.(peer.PeerRequest); ok {
+						for _, ch := range rq.Chunks {
+							m.commanded[ch]--
+						}
+						m.labels["exit-with-unseen-commands"] = true
+					}
+				default:
+					break drain
+				}
+			}
 			for c, n := range m.commanded {
 				if n != 0 {
 					return fmt.Sprintf("the peer has exited, block %d is still counted %d time(s) in flight", c, n) + describe()
@@ -466,6 +489,7 @@ func run(c caseSpec) (fail string, m *model, hist []string) {
 			continue
 		}
 		hist = append(hist, s.String())
+		m.trace = append(m.trace, fmt.Sprintf("@%ds %s alive=%v rx=%d", time.Now().Unix()%100000, s.String(), a.Alive(), len(a.R.All())))
 		i := pick(s)
 		switch s.Kind {
 		case "t.request":
@@ -494,7 +518,12 @@ func run(c caseSpec) (fail string, m *model, hist []string) {
 				chunks = append(chunks, uint32(ch))
 				m.commanded[uint32(ch)]++
 			}
-			a.Cmd(peer.PeerRequest{Chunks: chunks})
+			if !a.Cmd(peer.PeerRequest{Chunks: chunks}) {
+				// the peer has gone: the command was not delivered
+				for _, ch := range chunks {
+					m.commanded[ch]--
+				}
+			}
 		case "t.cancel":
 			var ch uint32
 			if ks := m.sortedKeys(); len(ks) > 0 {
@@ -510,6 +539,24 @@ func run(c caseSpec) (fail string, m *model, hist []string) {
 		case "t.donthave":
 			delete(m.localHas, i)
 			a.Cmd(peer.PeerHave{Index: uint32(i), Have: false})
+		case "t.storm":
+			// the torrent gains and loses a piece many times in a row: each change
+			// is a message to the peer; with the remote not reading, the outgoing
+			// queue fills up completely
+			// (how many: 20..94; the queue takes 64, and one message more fails and
+			// ends the connection)
+			for k := 0; k < 20+s.A%75; k++ {
+				have := k%2 == 0 || !c.caps.Extended
+				a.Cmd(peer.PeerHave{Index: uint32(i), Have: have})
+				if have {
+					m.localHas[i] = true
+				} else {
+					delete(m.localHas, i)
+				}
+			}
+			if paused {
+				m.labels["outgoing-queue-filled-while-remote-not-reading"] = true
+			}
 		case "t.interested":
 			a.Cmd(peer.PeerInterested{Interested: s.A%2 == 0})
 		case "t.pexadd":
@@ -772,4 +819,49 @@ func TestReg_c11_offset_above_4g(t *testing.T) {
 	fixed(t, caseSpec{g: geom{ps: ps, length: ps * int64(n), n: n}, local: "none", caps: sim.Caps{Fast: true, Extended: true}, reqq: -1,
 		ext: map[string]uint8{"ut_pex": 1, "lt_donthave": 2, "ut_metadata": 3},
 		steps: []step{{Kind: "r.haveall"}, {Kind: "r.unchoke"}, {Kind: "t.request", L: []int{-262144, -262145}}, {Kind: "sleep", D: time.Second}}})
+}
+
+// PEX over a connection whose outgoing queue is completely full at the
+// moment of the periodic PEX message; then the announced peers leave, rejoin
+// and leave again.
+func TestC11PexCongested(t *testing.T) {
+	for variant := 0; variant < 4; variant++ {
+		// PEX messages go out once a minute.  Two peers are added, and the remote
+		// stops reading for 30 s (a connection blocked for a whole minute is closed
+		// by the writer's deadline) somewhere in the following minute: in one of
+		// the variants the periodic message falls into that window
+		steps := []step{{Kind: "t.pexadd", A: 0}, {Kind: "sleep", D: 64 * time.Second}, {Kind: "t.pexadd", A: 1}, {Kind: "t.pexadd", A: 2},
+			{Kind: "sleep", D: time.Duration(2+15*variant) * time.Second}, {Kind: "r.pause"}, {Kind: "t.have", I: 2}, {Kind: "t.storm", I: 1, A: 44}}
+		// (one message makes the writer block on the connection; 64 more fill the
+		// queue to the brim without overflowing it)
+		if variant%2 == 1 {
+			steps = append(steps, step{Kind: "t.pexdel", A: 0})
+		}
+		steps = append(steps, step{Kind: "sleep", D: 30 * time.Second}, step{Kind: "r.unpause"}, step{Kind: "sleep", D: 3 * time.Second},
+			step{Kind: "t.pexdel", A: 1}, step{Kind: "t.pexadd", A: 1}, step{Kind: "t.pexdel", A: 1})
+		if variant >= 2 {
+			steps = append(steps, step{Kind: "t.pexdel", A: 2}, step{Kind: "t.pexadd", A: 2})
+		}
+		steps = append(steps, step{Kind: "sleep", D: 61 * time.Second}, step{Kind: "sleep", D: 61 * time.Second}, step{Kind: "sleep", D: 61 * time.Second}, step{Kind: "sleep", D: 10 * time.Second})
+		c := caseSpec{g: geom{ps: blk, length: 9 * blk, n: 9}, local: "none", caps: sim.Caps{Extended: true, Fast: variant%2 == 0}, reqq: -1,
+			ext: map[string]uint8{"ut_pex": 1, "lt_donthave": 2, "ut_metadata": 3}, steps: steps}
+		var fail string
+		var m *model
+		leak := sim.Bubble(t, func() { fail, m, _ = run(c) })
+		if fail != "" {
+			t.Fatalf("variant %d: %s", variant, fail)
+		}
+		if leak != "" {
+			t.Fatalf("leak: %s", leak)
+		}
+		var l []string
+		for k := range m.labels {
+			l = append(l, k)
+		}
+		sort.Strings(l)
+		if os.Getenv("VERIF_C11_TRACE") != "" {
+			t.Logf("variant %d: labels %v; PEX told %v; trace %v", variant, l, m.pexTold, m.trace)
+		}
+		stats.Case(fmt.Sprintf("pex-congested/%d", variant), true, append(l, "pex-over-congested-connection")...)
+	}
 }
